@@ -1449,6 +1449,7 @@ def cases(tier):
     from rules import c04_dq
     cs += c04_dq.cases(tier, sys.modules[__name__])
     cs += c04_dq.exponential_cases(tier, sys.modules[__name__])
+    cs += c04_dq.lookat_cases(tier, sys.modules[__name__])
     cs += canaries()
     cs += c04_dq.canaries(sys.modules[__name__])
     return cs
